@@ -34,6 +34,29 @@ func init() {
 
 const kvBucket = "vb"
 
+// amount concretisation variants (C02): every abstract amount is multiplied by amtScale; outputs may
+// carry a leading zero byte (non-canonical but equal big-endian encoding)
+var (
+	amtScale    = big.NewInt(1)
+	amtLeadZero = false
+)
+
+func amtBytes(a int64, output bool) []byte {
+	b := new(big.Int).Mul(big.NewInt(a), amtScale).Bytes()
+	if output && amtLeadZero && len(b) > 0 {
+		return append([]byte{0}, b...)
+	}
+	return b
+}
+
+func unscale(x *big.Int) string {
+	q, r := new(big.Int).QuoRem(x, amtScale, new(big.Int))
+	if r.Sign() != 0 {
+		return "raw:" + x.String()
+	}
+	return q.String()
+}
+
 type catOut struct {
 	To  string `json:"to"`
 	Amt int64  `json:"amt"`
@@ -114,10 +137,10 @@ func newXSim(name string, cat *catalog, window int) (*xsim, error) {
 	pre := map[string]string{}
 	order := []string{}
 	for _, o := range cat.Genesis {
-		pre[o.To] = fmt.Sprint(o.Amt)
+		pre[o.To] = new(big.Int).Mul(big.NewInt(o.Amt), amtScale).String()
 		order = append(order, o.To)
 	}
-	g := fx.Genesis(fx.GenesisOpts{Predist: pre, PredistList: order, Award: fmt.Sprint(cat.Award), Window: window, Miner: "m"})
+	g := fx.Genesis(fx.GenesisOpts{Predist: pre, PredistList: order, Award: new(big.Int).Mul(big.NewInt(cat.Award), amtScale).String(), Window: window, Miner: "m"})
 	s := &xsim{cat: cat, name: name, window: window, genesis: g, txs: map[string]*pb.Transaction{}, names: map[string]string{},
 		ids: map[string]int{}, blocks: map[int]*pb.InternalBlock{}, n: 1, recover: make(chan struct{}, 16)}
 	node, err := fx.NewNode(name, g)
@@ -185,11 +208,11 @@ func (s *xsim) tx(name string) (*pb.Transaction, error) {
 		}
 		o := s.outOf(r.name, r.off)
 		tx.TxInputs = append(tx.TxInputs, &protos.TxInput{RefTxid: ref.Txid, RefOffset: int32(r.off),
-			FromAddr: []byte(addrOf(o.To)), Amount: big.NewInt(o.Amt).Bytes(), FrozenHeight: o.Fz})
+			FromAddr: []byte(addrOf(o.To)), Amount: amtBytes(o.Amt, false), FrozenHeight: o.Fz})
 		addSigner(o.To)
 	}
 	for _, o := range c.Outs {
-		tx.TxOutputs = append(tx.TxOutputs, &protos.TxOutput{ToAddr: []byte(addrOf(o.To)), Amount: big.NewInt(o.Amt).Bytes(), FrozenHeight: o.Fz})
+		tx.TxOutputs = append(tx.TxOutputs, &protos.TxOutput{ToAddr: []byte(addrOf(o.To)), Amount: amtBytes(o.Amt, true), FrozenHeight: o.Fz})
 	}
 	prog := []fx.VOp{}
 	for _, k := range sortedKeys(c.Reads) {
@@ -261,7 +284,7 @@ func (s *xsim) tx(name string) (*pb.Transaction, error) {
 func (s *xsim) award(b int) *pb.Transaction {
 	name := "aw" + strconv.Itoa(b)
 	tx := &pb.Transaction{Version: 3, Coinbase: true, Desc: []byte(name), Timestamp: int64(1000 + b)}
-	tx.TxOutputs = []*protos.TxOutput{{ToAddr: []byte(addrOf("m")), Amount: big.NewInt(s.cat.Award).Bytes()}}
+	tx.TxOutputs = []*protos.TxOutput{{ToAddr: []byte(addrOf("m")), Amount: amtBytes(s.cat.Award, true)}}
 	tx.Txid, _ = txhash.MakeTransactionID(tx)
 	s.names[hex.EncodeToString(tx.Txid)] = name
 	return tx
@@ -497,8 +520,8 @@ func (s *xsim) project(nd *fx.Node) xObs {
 	o.Ltip = s.abs(nd.Ledger.GetMeta().TipBlockid)
 	meta := st.GetMeta()
 	o.Irr = meta.IrreversibleBlockHeight
-	o.Total = st.GetTotal().String()
-	if meta.UtxoTotal != o.Total {
+	o.Total = unscale(st.GetTotal())
+	if meta.UtxoTotal != st.GetTotal().String() {
 		o.Total = "meta:" + meta.UtxoTotal + "/total:" + o.Total
 	}
 	addrName := map[string]string{}
@@ -508,7 +531,7 @@ func (s *xsim) project(nd *fx.Node) xObs {
 		if err != nil {
 			o.Bal = append(o.Bal, "err")
 		} else {
-			o.Bal = append(o.Bal, b.String())
+			o.Bal = append(o.Bal, unscale(b))
 		}
 	}
 	// raw scan of the UTXO table
@@ -530,7 +553,10 @@ func (s *xsim) project(nd *fx.Node) xObs {
 		if an == "" {
 			an = "?" + addr
 		}
-		amt, _ := strconv.Atoi(item.Amount.String())
+		amt, aerr := strconv.Atoi(unscale(item.Amount))
+		if aerr != nil {
+			amt = -1
+		}
 		o.Utxo = append(o.Utxo, []interface{}{an, s.txName(txid), off, amt, item.FrozenHeight})
 	}
 	it.Release()
@@ -582,7 +608,13 @@ func xstateReplay(args []string) error {
 	catf := fs.String("catalog", "", "catalogue JSON written by the Gen module")
 	window := fs.Int("window", 0, "irreversible slide window of the chain")
 	reopen := fs.Bool("reopen", false, "also project a node reopened on a copy of the data after every step")
+	scale := fs.String("scale", "1", "factor applied to every abstract amount (decimal)")
+	enc := fs.String("enc", "", "lz = outputs carry a leading zero byte")
 	fs.Parse(args)
+	if _, ok := amtScale.SetString(*scale, 10); !ok || amtScale.Sign() <= 0 {
+		return fmt.Errorf("bad -scale %q", *scale)
+	}
+	amtLeadZero = *enc == "lz"
 	cat, err := loadCatalog(*catf)
 	if err != nil {
 		return err
